@@ -26,7 +26,7 @@ use serde::{de::DeserializeOwned, Deserialize, Serialize};
 #[derive(Clone, Debug, PartialEq, Eq, Default, Serialize, Deserialize)]
 struct W(i64);
 
-trait Val: Clone + PartialEq + Default + Debug + Serialize + DeserializeOwned + 'static {
+trait Val: Clone + PartialEq + Default + Debug + Serialize + DeserializeOwned + Send + Sync + 'static {
     fn new(v: i64) -> Self;
     fn get(&self) -> i64;
 }
@@ -105,8 +105,8 @@ serde_no!(
 );
 
 /// Everything the interpreter needs from a prefix type.
-trait PT: Prefix + Clone + PartialEq + Eq + Hash + Debug + SerdeRt + 'static {}
-impl<P> PT for P where P: Prefix + Clone + PartialEq + Eq + Hash + Debug + SerdeRt + 'static {}
+trait PT: Prefix + Clone + PartialEq + Eq + Hash + Debug + SerdeRt + Send + Sync + 'static {}
+impl<P> PT for P where P: Prefix + Clone + PartialEq + Eq + Hash + Debug + SerdeRt + Send + Sync + 'static {}
 
 // ---------------------------------------------------------------------------------------------
 // output helpers
@@ -369,6 +369,10 @@ enum MapOp<P> {
     Iters,
     Arena,
     Serde,
+    /// C14: addresses of all simultaneously live mutable references are pairwise distinct
+    Alias,
+    /// C14: workers on the sub-views of a recursive split, in parallel threads
+    Par(usize),
 }
 
 enum Op<P> {
@@ -646,6 +650,8 @@ fn parse_op<P: Prefix>(t: &[&str]) -> Option<Op<P>> {
         ("iters", 2) => m(MapOp::Iters),
         ("arena", 2) => m(MapOp::Arena),
         ("serde", 2) => m(MapOp::Serde),
+        ("alias", 2) => m(MapOp::Alias),
+        ("par", 3) => m(MapOp::Par(p_usize(t[2])?)),
 
         ("union", 4) | ("inter", 4) | ("diff", 4) | ("cdiff", 4) => {
             let kind = match name {
@@ -1213,6 +1219,8 @@ fn map_op<P: PT, T: Val>(
         MapOp::Q(p) => query(m, p, o, cap),
         MapOp::Iters => iters(m, o, cap),
         MapOp::Arena => arena(m, o),
+        MapOp::Alias => alias(m, o, cap),
+        MapOp::Par(k) => par(m, *k, o, cap),
         MapOp::Serde => match P::roundtrip(m) {
             None => {
                 sep(o);
@@ -1228,6 +1236,158 @@ fn map_op<P: PT, T: Val>(
             }
         },
     }
+}
+
+
+// ---------------------------------------------------------------------------------------------
+// C14: exclusivity of mutable access
+// ---------------------------------------------------------------------------------------------
+
+fn all_distinct(v: &[usize]) -> bool {
+    let mut s = v.to_vec();
+    s.sort_unstable();
+    s.windows(2).all(|w| w[0] != w[1])
+}
+
+fn same_set(a: &[usize], b: &[usize]) -> bool {
+    let mut x = a.to_vec();
+    let mut y = b.to_vec();
+    x.sort_unstable();
+    x.dedup();
+    y.sort_unstable();
+    y.dedup();
+    x == y
+}
+
+/// Addresses of the values reachable by recursively splitting a mutable view: the view's own
+/// value (through `value_mut`), then everything below `left()` and below `right()`.
+fn split_addrs<P: Prefix, T>(mut v: TrieViewMut<'_, P, T>, depth: usize, cap: usize, out: &mut Vec<usize>) {
+    if depth > cap || out.len() > cap {
+        panic!("hang guard");
+    }
+    if let Some(r) = v.value_mut() {
+        out.push(r as *mut T as usize);
+    }
+    let (l, r) = v.split();
+    if let Some(l) = l {
+        split_addrs(l, depth + 1, cap, out);
+    }
+    if let Some(r) = r {
+        split_addrs(r, depth + 1, cap, out);
+    }
+}
+
+/// `alias X`: while ONE mutable borrow of the map is alive, collect every mutable reference a
+/// traversal hands out (all held at the same time) and compare their addresses.
+fn alias<P: PT, T: Val>(m: &mut PrefixMap<P, T>, o: &mut String, cap: usize) {
+    // iter_mut: all references of one iterator
+    let it: Vec<usize> = coll(m.iter_mut(), cap).into_iter().map(|(_, r)| r as *mut T as usize).collect();
+    key(o, "n=");
+    w_u(o, it.len());
+    key(o, "iter=");
+    w_b(o, all_distinct(&it));
+    let vals: Vec<usize> = coll(m.values_mut(), cap).into_iter().map(|r| r as *mut T as usize).collect();
+    key(o, "vals=");
+    w_b(o, vals == it);
+    // views obtained by recursive split() of one mutable view
+    let mut sp = Vec::new();
+    split_addrs(m.view_mut(), 0, cap, &mut sp);
+    key(o, "split=");
+    w_b(o, all_distinct(&sp));
+    key(o, "cover=");
+    w_b(o, same_set(&sp, &it));
+    // *_mut set operations over the two halves of one map: both sides' references live together
+    let mut okk = true;
+    if let (Some(mut l), Some(r)) = m.view_mut().split() {
+        let mut a = Vec::new();
+        for x in coll(l.union_mut(r), cap) {
+            let (_, lv, rv) = x;
+            if let Some(lv) = lv {
+                a.push(lv as *mut T as usize);
+            }
+            if let Some(rv) = rv {
+                a.push(rv as *mut T as usize);
+            }
+        }
+        okk &= all_distinct(&a) && a.iter().all(|x| it.contains(x));
+    }
+    if let (Some(mut l), Some(r)) = m.view_mut().split() {
+        let mut a = Vec::new();
+        for (_, lv, rv) in coll(l.intersection_mut(r), cap) {
+            a.push(lv as *mut T as usize);
+            a.push(rv as *mut T as usize);
+        }
+        okk &= all_distinct(&a) && a.iter().all(|x| it.contains(x));
+    }
+    if let (Some(mut l), Some(r)) = m.view_mut().split() {
+        let mut a = Vec::new();
+        let rset: Vec<usize> = coll((&r).view().iter(), cap).into_iter().map(|(_, v)| v as *const T as usize).collect();
+        for d in coll(l.difference_mut(&r), cap) {
+            a.push(d.value as *mut T as usize);
+        }
+        okk &= all_distinct(&a) && a.iter().all(|x| it.contains(x) && !rset.contains(x));
+    }
+    if let (Some(mut l), Some(r)) = m.view_mut().split() {
+        let mut a = Vec::new();
+        for (_, v) in coll(l.covering_difference_mut(&r), cap) {
+            a.push(v as *mut T as usize);
+        }
+        okk &= all_distinct(&a) && a.iter().all(|x| it.contains(x));
+    }
+    key(o, "sets=");
+    w_b(o, okk);
+}
+
+/// Split a mutable view `k` levels deep; the value at every node that is split is written by the
+/// caller (`3x+7`), the remaining sub-views become the jobs of the workers.
+fn par_jobs<'a, P: Prefix, T: Val>(mut v: TrieViewMut<'a, P, T>, depth: usize, k: usize, jobs: &mut Vec<TrieViewMut<'a, P, T>>) {
+    if depth >= k {
+        jobs.push(v);
+        return;
+    }
+    if let Some(r) = v.value_mut() {
+        let x = r.get();
+        *r = T::new(x.wrapping_mul(3).wrapping_add(7));
+    }
+    let (l, r) = v.split();
+    if let Some(l) = l {
+        par_jobs(l, depth + 1, k, jobs);
+    }
+    if let Some(r) = r {
+        par_jobs(r, depth + 1, k, jobs);
+    }
+}
+
+/// `par X k`: worker `i` (numbered in left-to-right order of the sub-views) maps every value of
+/// its sub-view to `3x+i`, all workers running concurrently on their disjoint sub-views.
+fn par<P: PT, T: Val>(m: &mut PrefixMap<P, T>, k: usize, o: &mut String, cap: usize) {
+    let mut jobs = Vec::new();
+    par_jobs(m.view_mut(), 0, k.min(6), &mut jobs);
+    let n = jobs.len();
+    let barrier = std::sync::Barrier::new(n.max(1));
+    std::thread::scope(|s| {
+        for (i, mut job) in jobs.into_iter().enumerate() {
+            let barrier = &barrier;
+            s.spawn(move || {
+                barrier.wait();
+                let mut cnt = 0usize;
+                for (_, r) in job.iter_mut() {
+                    cnt += 1;
+                    if cnt > cap {
+                        panic!("hang guard");
+                    }
+                    let x = r.get();
+                    if (cnt + i) % 2 == 0 {
+                        std::thread::yield_now();
+                    }
+                    *r = T::new(x.wrapping_mul(3).wrapping_add(i as i64));
+                    std::thread::yield_now();
+                }
+            });
+        }
+    });
+    key(o, "jobs=");
+    w_u(o, n);
 }
 
 /// Fenwick tree over `n` slots, all initially 1: order statistics for the `collect` permutation.
